@@ -179,6 +179,22 @@ def _pool_call(task):
     return ("ok", p, None)
 
 
+def _worker_loop(conn):
+    """Worker of Ctx.pmap: receives one task at a time, answers with (_pool_call result)."""
+    while True:
+        try:
+            task = conn.recv()
+        except (EOFError, OSError):
+            return
+        if task is None:
+            return
+        res = _pool_call(task)
+        try:
+            conn.send(res)
+        except Exception:  # noqa: BLE001 - unpicklable result: report as a harness error
+            conn.send(("error", traceback.format_exc(), None))
+
+
 def raised_in_repo(e):
     """True when the innermost frames of the traceback are inside the repository under test."""
     repo = os.path.realpath(os.environ.get("VERIF_REPO_DIR", "/repo"))
@@ -238,13 +254,84 @@ class Ctx(Partial):
                     raise RuntimeError("worker failed:\n" + p)
                 self.merge(p)
             return
+        # own worker management instead of multiprocessing.Pool: when the code under test kills a worker process
+        # (segmentation fault, abort) Pool silently loses the task and waits forever; here the parent knows which
+        # task every worker holds, reports the death as an observation and carries on with a fresh worker
+        import signal
+        from multiprocessing.connection import wait
         ctx = mp.get_context("fork")
-        with ctx.Pool(nproc) as pool:
-            for st, p, t in pool.imap(_pool_call, tasks, chunksize=1):
-                if st == "error":
-                    pool.terminate()
-                    raise RuntimeError(f"worker failed on task {t!r}:\n{p}")
-                self.merge(p)
+        task_timeout = float(os.environ.get("VERIF_TASK_TIMEOUT", "3600"))
+
+        def spawn():
+            parent, child = ctx.Pipe()
+            pr = ctx.Process(target=_worker_loop, args=(child,), daemon=True)
+            pr.start()
+            child.close()
+            return {"proc": pr, "conn": parent, "task": None, "since": 0.0}
+
+        workers = [spawn() for _ in range(nproc)]
+        queue = list(range(len(tasks)))[::-1]
+        done = 0
+        error = None
+        try:
+            while done < len(tasks) and error is None:
+                for w in workers:
+                    if w["task"] is None and queue:
+                        w["task"] = queue.pop()
+                        w["since"] = time.time()
+                        w["conn"].send(tasks[w["task"]])
+                busy = [w for w in workers if w["task"] is not None]
+                ready = wait([w["conn"] for w in busy] + [w["proc"].sentinel for w in busy], timeout=30)
+                for w in busy:
+                    got = None
+                    if w["conn"] in ready:
+                        try:
+                            got = w["conn"].recv()
+                        except (EOFError, OSError):
+                            got = None
+                    if got is not None:
+                        st, p, t = got
+                        if st == "error":
+                            error = f"worker failed on task {t!r}:\n{p}"
+                            break
+                        self.merge(p)
+                        w["task"] = None
+                        done += 1
+                        continue
+                    dead = not w["proc"].is_alive()
+                    hung = (time.time() - w["since"]) > task_timeout
+                    if dead or hung:
+                        t = tasks[w["task"]]
+                        if hung and not dead:
+                            w["proc"].kill()
+                            w["proc"].join(5)
+                            why = f"did not finish within {task_timeout:.0f} s and was killed"
+                        else:
+                            w["proc"].join(1)
+                            code = w["proc"].exitcode
+                            why = (f"was killed by signal {signal.Signals(-code).name}" if code is not None and code < 0 and -code in [s_.value for s_ in signal.Signals]
+                                   else f"exited with code {code}")
+                        self.violation("process_death", {"task": repr(t)[:300]}, {"kind": "__task__", "task": repr(t)[:2000]},
+                                       f"the worker process exploring task {repr(t)[:200]} {why}: the code under test took the interpreter down "
+                                       f"(or never returned) on an input the explorer generated")
+                        try:
+                            w["conn"].close()
+                        except OSError:
+                            pass
+                        workers[workers.index(w)] = spawn()
+                        done += 1
+        finally:
+            for w in workers:
+                try:
+                    w["conn"].send(None)
+                except (OSError, BrokenPipeError, ValueError):
+                    pass
+            for w in workers:
+                w["proc"].join(2)
+                if w["proc"].is_alive():
+                    w["proc"].kill()
+        if error is not None:
+            raise RuntimeError(error)
 
 
 # ---------------------------------------------------------------- findings
